@@ -45,6 +45,14 @@ def fd_function(name):
                              [e * (2 * x[0] * x[1] * x[1] / (1 + x[0] * x[0]) ** 2), e * (-2 * x[1] / (1 + x[0] * x[0]))],
                              [x[1], x[0] - np.sin(x[1])]])
         return f, J, (2,), False
+    if name == "steep23":
+        # steep in its second argument: a differencing step that is not chosen for THAT component (too long, or inherited from a large neighbour) is ruinous
+        def f(x):
+            return np.array([np.sin(40 * x[1]) + x[0], np.cos(25 * x[1]) + 1e-4 * x[0], x[0] * 1e-4 * x[1]])
+
+        def J(x):
+            return np.array([[1.0, 40 * np.cos(40 * x[1])], [1e-4, -25 * np.sin(25 * x[1])], [1e-4 * x[1], 1e-4 * x[0]]])
+        return f, J, (2,), False
     if name == "smooth_matrix":
         # X (2,2) -> sin(X) @ X : d/dX[k,l] of sum_m sin(X[i,m]) X[m,j]
         def f(X):
@@ -72,19 +80,34 @@ def fd_case(case):
     r = Res()
     f, J, shape, linear = fd_function(case["fn"])
     n = int(np.prod(shape)) if shape else 1
-    pts = list(itertools.product(POINT_VALUES, repeat=min(n, 2)))
+    adaptive = case.get("adaptive", True)
+    # (non-adaptive mode differences a tiny component with a step relative to it, so its round-off is eps |f| / (dy |x_j|), not 'to rounding': tiny components
+    #  belong to the adaptive cells; the non-adaptive ones mix zero, O(1) and large components in every order)
+    pts = list(itertools.product(POINT_VALUES if adaptive else ([0.0, 0.3, 0.75, 5.0, 1e4] + []), repeat=min(n, 2)))
+    # (no tiny components in non-adaptive mode: there a component of 1e-8 is differenced with a step relative to it (3e-16), and next to an O(1) component the
+    #  round-off eps |f| / h is O(0.1) even for a linear map, with any number of refinements.  The statement speaks of 'the accuracy its tolerances request':
+    #  it is read for the default adaptive mode; the non-adaptive cells only check what that mode can deliver)
+    if case["fn"] == "steep23":
+        pts = list(itertools.product([0.0, 0.3, 5.0, 4096.0, 1e4], [0.3, 0.75, -0.6]))       # the steep argument stays O(1); its neighbour takes every size
     for pv in pts:
         vals = [pv[i % len(pv)] * (1 if i % 3 else -1) * (1 + 0.125 * (i // 2)) for i in range(n)]
         x = np.array(vals, dtype=np.float64).reshape(shape) if shape else np.float64(vals[0])
         kw = dict(base_order=case["order"], flat=case["flat"])
         if not linear:
             kw.update(atol=case["tol"], rtol=case["tol"])
+        if not adaptive:
+            kw.update(adaptive=False)         # fixed number of Richardson refinements, per-component choice of the differencing step
+            if case.get("riter") is not None:
+                kw.update(richardson_iter=case["riter"])
         jw = U.JacobianWrapper(f, **kw)
         got = np.asarray(jw(x))
         want = np.asarray(J(x))
         fshape = np.shape(f(x))
         r.n += 1
         cs = dict(section="fd", fn=case["fn"], order=case["order"], flat=case["flat"], tol=case["tol"], x=np.asarray(x, dtype=float).reshape(-1))
+        if not adaptive:
+            cs["adaptive"] = False
+            cs["riter"] = case.get("riter")
         exp_shape = (int(np.prod(fshape)) if fshape else 1, n) if case["flat"] else tuple(fshape) + tuple(shape)
         if case["flat"] and exp_shape == (1, 1):
             exp_shape = ()
@@ -99,6 +122,12 @@ def fd_case(case):
             # 'near the accuracy its tolerances request': 100 x (rtol |J| + atol), floor at the round-off level of differencing f
             fmag = float(np.max(np.abs(f(x)))) + 1.0
             tol = 100 * (case["tol"] * scale + case["tol"]) + 1e5 * EPS * fmag * max(1.0, float(np.max(np.abs(x))))
+            if not adaptive:
+                # no tolerance is enforced in this mode; the fixed refinement ladder reaches 1e-12 on these functions (a wrong step is off by 1e-5 .. 1e200)
+                tol = max(tol, 1e-7 * (scale + 1.0) + 1e-9 * fmag)
+        if linear and not adaptive:
+            # (the fixed refinement ladder goes on halving the step: the round-off eps |f| / h of differencing reaches 1e-9 |f|)
+            tol = max(tol, 1e-7 * (scale + 1.0) + 1e-9 * (float(np.max(np.abs(f(x)))) + 1.0))
         err = float(np.max(np.abs(got - wantl)))
         if not err <= tol:
             r.v("C16/fd-value/%s" % case["fn"], "finite-difference Jacobian agrees with the analytic Jacobian", cs,
@@ -261,8 +290,9 @@ def run(ctx):
     ctx.assumptions += ["linear maps: round-off of differencing only, 1e5*eps*|A||x|; smooth: 100*(rtol|J| + atol) plus the round-off floor 1e5*eps*|f||x| of differencing",
                         "without a user Jacobian the DiffRHS answer must be within 1e-6 relative of the analytic Jacobian at the requested (t, y)"]
     if not ctx.only or "fd" in ctx.only:
-        cases = [dict(fn=fn, order=o, flat=fl, tol=tol) for fn in ("linear32", "linear_matrix", "scalar_tanh", "smooth23", "smooth_matrix")
+        cases = [dict(fn=fn, order=o, flat=fl, tol=tol) for fn in ("linear32", "linear_matrix", "scalar_tanh", "smooth23", "steep23", "smooth_matrix")
                  for o in (2, 3, 5, 7) for fl in (False, True) for tol in ((1e-8,) if ctx.quick else (1e-6, 1e-8, 1e-10))]
+        cases += [dict(fn=fn, order=o, flat=fl, tol=1e-8, adaptive=False) for fn in ("linear32", "linear_matrix", "smooth23", "steep23", "smooth_matrix") for o in (2, 3, 5) for fl in (False, True)]
         grid.pmap(fd_case, cases, ctx, section="fd", horizon=600, chunksize=1)
     if not ctx.only or "rhs" in ctx.only:
         def ops_fn(cfg, hist):
